@@ -186,6 +186,39 @@ pub mod sync {
 
     pub use shuttle::sync::{Barrier, BarrierWaitResult, Condvar, Mutex, MutexGuard, RwLock, RwLockReadGuard, RwLockWriteGuard, WaitTimeoutResult};
 
+    fn sp() {
+        if !std::thread::panicking() {
+            shuttle::thread::sleep(std::time::Duration::from_secs(0));
+        }
+    }
+
+    // Observations of an Arc's reference counts are scheduling points (the generated tree routes
+    // `Arc::strong_count(..)` etc. here): the count can change between two of them.
+    pub fn arc_strong_count<T: ?Sized>(a: &std::sync::Arc<T>) -> usize {
+        sp();
+        std::sync::Arc::strong_count(a)
+    }
+    pub fn arc_weak_count<T: ?Sized>(a: &std::sync::Arc<T>) -> usize {
+        sp();
+        std::sync::Arc::weak_count(a)
+    }
+    pub fn arc_get_mut<T: ?Sized>(a: &mut std::sync::Arc<T>) -> Option<&mut T> {
+        sp();
+        std::sync::Arc::get_mut(a)
+    }
+    pub fn arc_make_mut<T: Clone>(a: &mut std::sync::Arc<T>) -> &mut T {
+        sp();
+        std::sync::Arc::make_mut(a)
+    }
+    pub fn arc_try_unwrap<T>(a: std::sync::Arc<T>) -> Result<T, std::sync::Arc<T>> {
+        sp();
+        std::sync::Arc::try_unwrap(a)
+    }
+    pub fn arc_into_inner<T>(a: std::sync::Arc<T>) -> Option<T> {
+        sp();
+        std::sync::Arc::into_inner(a)
+    }
+
     /// every atomic operation is a scheduling point
     pub mod atomic {
         pub use shuttle::sync::atomic::*;
